@@ -40,7 +40,9 @@ def main():
     names, els, E, feed, factory, gfun = c16._build(case)
     fed = [x > 0 for x in feed]
     solve_idx = [k for k, e in enumerate(events) if e['ev'] == 'solve']
-    s0, s1 = solve_idx[0], solve_idx[1]
+    s0 = solve_idx[0]
+    sa = [k for k in solve_idx if events[k]['again']][0]                  # the first call once more
+    s1 = [k for k in solve_idx if not events[k]['again'] and not events[k]['first']][0]   # another form
     base = events[s0]
     n = [D(x) for x in base['n']]
     frac = [D(x) for x in base['frac']]
@@ -67,7 +69,7 @@ def main():
     if min(moved) <= 0:
         moved = [n[i] - nu[i] * shift for i in range(len(n))]
     recomposed(s0, {'AtomsConserved', 'Stationary'}, [n[0] * 1.001] + n[1:])
-    recomposed(s0, {'Stationary', 'NearMinimum', 'OrderIndependent'}, moved)   # the later, permuted run disagrees with it
+    recomposed(s0, {'Stationary', 'NearMinimum', 'OrderIndependent', 'HistoryIndependent'}, moved)   # the later runs disagree with it
     recomposed(s1, {'Stationary', 'NearMinimum', 'OrderIndependent'}, moved)
     recomposed(s0, {'FractionsSumToOne', 'FractionsAreRatios'}, n, frac2=[x * 1.001 for x in frac])
     recomposed(s0, {'Stationary'}, n, g2=[g[0] + 0.01] + g[1:])
@@ -77,6 +79,10 @@ def main():
     variant(s0, {'WITNESS'}, rows=lambda r: r[:-1], cols=lambda c: c[:-1])
     variant(s0, {'NonNegative', 'AtomsConserved'}, pos=False, n=lambda v: [[-v[0][0], v[0][1]]] + v[1:])
     variant(s0, {'Finite'}, finite=False)
+    recomposed(sa, {'Stationary', 'NearMinimum', 'HistoryIndependent'}, moved)
+    variant(s0, {'ConditionsEchoed'}, echoP=lambda v: bump(v))
+    variant(s0, {'ConditionsEchoed'}, echoT=lambda v: bump(v))
+    variant(s0, {'SpeciesListed'}, listed=False)
     variant(s0, {'NoSilentFailure'}, out='failed', sig=False)
     variant(s0, set(), out='failed', sig=True)
     variant(s0, set(), out='failed', how='raise', sig=False)
